@@ -86,6 +86,10 @@ fn main() {
                 std::process::exit(4);
             };
             let ctx = Ctx::new(pid, tier, seed, false);
+            // C20 has its own per-call watchdog in child processes; every other check gets the stall monitor
+            if pid != "C20" {
+                start_stall_monitor(&ctx, std::time::Duration::from_secs(if pid == "C01" { 180 } else { 30 }));
+            }
             let r = guard(|| run(&ctx));
             if let Guard::Panic(p) = r {
                 println!("MACHINERY-ERROR: check body panicked: {}", p);
@@ -108,7 +112,19 @@ fn main() {
             if !prefix.is_empty() {
                 println!("REPLAY: executing {} recorded earlier calls first (history-dependent failure)", prefix.len());
             }
-            let vs = replay_on_fresh_thread(&ctx, replay, &prefix, &v["case"]);
+            // a replayed hang must not hang the replay
+            let (tx, rx) = std::sync::mpsc::channel();
+            let (c2, case2) = (ctx.clone(), v["case"].clone());
+            std::thread::spawn(move || {
+                let _ = tx.send(replay_on_fresh_thread(&c2, replay, &prefix, &case2));
+            });
+            let vs = match rx.recv_timeout(std::time::Duration::from_secs(120)) {
+                Ok(vs) => vs,
+                Err(_) => {
+                    println!("REPLAY property={} site=stalled case class=does-not-terminate detail=no result within 120 s", pid);
+                    std::process::exit(1);
+                }
+            };
             if vs.is_empty() {
                 println!("REPLAY property={} : no violation reproduced", pid);
                 std::process::exit(0);
